@@ -67,16 +67,24 @@ if any(o == ["TIMEOUT"] for o in outs):
     stuck = all(a[p][0] == b[p][0] for p in procs if a[p][0] is not None and b[p][0] is not None)
 if prog.get("idle"):
     time.sleep(prog["idle"])
+def read_hits():
+    h = {}
+    for fn in os.listdir(outdir):
+        if fn.startswith("hits_"):
+            h[fn[5:]] = open(os.path.join(outdir, fn)).read().split()
+    return h
+
+
+hits_before_probe = read_hits()
+time.sleep(1.0)       # a death that has happened by now is detected long before the probe is submitted
+broken_before_probe = type(ex._flags.broken).__name__ if ex._flags.broken else None
 probe = None
 try:
     probe = outcome(ex.submit(T.echo, 999), 40)
 except BaseException as e:
     probe = ["submit_raised", type(e).__name__, [c.__name__ for c in type(e).__mro__]]
-hits = {}
-for fn in os.listdir(outdir):
-    if fn.startswith("hits_"):
-        hits[fn[5:]] = open(os.path.join(outdir, fn)).read().split()
-emit(workers=workers, outcomes=outs, probe=probe, stuck=stuck, hits=hits, broken=type(ex._flags.broken).__name__ if ex._flags.broken else None)
+hits = read_hits()
+emit(workers=workers, outcomes=outs, probe=probe, stuck=stuck, hits=hits, hits_before_probe=hits_before_probe, broken=type(ex._flags.broken).__name__ if ex._flags.broken else None)
 t0 = time.time()
 import threading
 done = threading.Event()
